@@ -102,7 +102,7 @@ def MemoOK (s : MemoSt) : Prop :=
 theorem memoOK_empty : MemoOK G orig MemoSt.empty := by
   intro c n r h; simp [MemoSt.find, MemoSt.empty] at h
 
-theorem memoOK_calls (s : MemoSt) (k : Nat) (h : MemoOK G orig s) : MemoOK G orig { s with calls := k } := h
+theorem memoOK_calls (s : MemoSt) (l : List (String × Nat)) (h : MemoOK G orig s) : MemoOK G orig { s with log := l } := h
 
 theorem memoOK_insert (s : MemoSt) (c : String) (toks : List Tok) (r : PRes) (h : MemoOK G orig s)
     (hr : r ≠ .depth) (hv : ∃ f, pegGet G f c toks = r) (hsuf : toks <:+ orig) :
@@ -228,8 +228,8 @@ theorem pegGetM_sim (f : Nat) : Sim G orig (pegGet G f) (pegGetM G f) := by
       simp only
       have hnd' : trySets G (pegGet G n) c toks (G.setsOf c) false ≠ .depth := by simpa only [pegGet] using hnd
       obtain ⟨e1, e2⟩ := trySets_sim G orig (pegGet G n) (pegGetM G n) ih (yield_exact G n) c toks (G.setsOf c) false
-        { s with calls := s.calls + 1 } hsuf (memoOK_calls G orig s _ hok) hnd'
-      rcases hm : trySetsM G (pegGetM G n) c toks (G.setsOf c) false { s with calls := s.calls + 1 } with ⟨r, s'⟩
+        { s with log := (c, toks.length) :: s.log } hsuf (memoOK_calls G orig s _ hok) hnd'
+      rcases hm : trySetsM G (pegGetM G n) c toks (G.setsOf c) false { s with log := (c, toks.length) :: s.log } with ⟨r, s'⟩
       rw [hm] at e1 e2
       simp only at e1 e2
       have hpg : pegGet G (n + 1) c toks = r := by simp only [pegGet]; exact e1.symm
